@@ -42,8 +42,61 @@ func TestC16RawInputReuse(t *testing.T) {
 		rounds := rapid.IntRange(2, 4).Draw(rt, "blocks")
 		var hist []string
 		for bi := 0; bi < rounds; bi++ {
-			if bi > 0 {
+			if rapid.IntRange(0, 2).Draw(rt, "decode-instead") == 0 {
+				// The same object takes a block from the wire in between (reset, then decoded, as a result
+				// target is): keys of whatever width the sender chose; afterwards it holds that block's rows.
+				dn := rapid.SampledFrom([]int{1, 5, 255, 256, 257, 300}).Draw(rt, "wire-dictionary-size")
+				rows := rapid.SampledFrom([]int{1, 3, 17, 303}).Draw(rt, "wire-rows")
+				dict := gen.DrawRows(rt, ik, dn)
+				var want []ref.Val
+				for i := 0; i < rows; i++ {
+					want = append(want, dict[(i*7+dn-1)%dn])
+				}
+				e := &ref.Enc{NoMap: true, LCBump: rapid.IntRange(0, 2).Draw(rt, "wire-key-bump")}
+				ref.EncodeState(e, lt)
+				ref.EncodeColumn(e, lt, want)
+				r := readerOf(e.B)
 				col.Reset()
+				if err := safely(func() error {
+					if err := col.DecodeState(r); err != nil {
+						return err
+					}
+					return col.DecodeColumn(r, rows)
+				}); err != nil {
+					rt.Fatalf("block %d (%v): decoding %d rows over a dictionary of %d into the reused raw column: %v", bi+1, hist, rows, dn, err)
+				}
+				hist = append(hist, fmt.Sprintf("decoded dict=%d rows=%d", dn, rows))
+				if !atEOF(r) || col.Rows() != rows {
+					rt.Fatalf("block %d (%v): after decoding, the raw column reports %d rows (block has %d), stream consumed: %v", bi+1, hist, col.Rows(), rows, atEOF(r))
+				}
+				var b proto.Buffer
+				col.EncodeState(&b)
+				col.EncodeColumn(&b)
+				d := &ref.Dec{B: b.Buf}
+				_ = ref.DecodeState(d, lt)
+				got, err := ref.DecodeColumn(d, lt, rows)
+				if err != nil || d.Left() != 0 {
+					rt.Fatalf("block %d (%v): re-encoding the decoded raw column does not parse: %v (%d bytes left)", bi+1, hist, err, d.Left())
+				}
+				if i, ok := ref.EqualRows(lt, got, want); !ok {
+					rt.Fatalf("block %d (%v): decoded raw column re-encodes row %d as %v, the block had %v", bi+1, hist, i, got[i], want[i])
+				}
+				continue
+			}
+			// The caller may pick another key width for the next block, before or after the reset.
+			if bi > 0 && rapid.Bool().Draw(rt, "other-key-width") {
+				nw := rapid.IntRange(0, 3).Draw(rt, "new-key-width")
+				if rapid.Bool().Draw(rt, "set-before-reset") {
+					col.Key = widths[nw]
+					col.Reset()
+				} else {
+					col.Reset()
+					col.Key = widths[nw]
+				}
+				wi = nw
+			} else {
+				col.Reset()
+				col.Key = widths[wi] // (a decode in between may have changed it)
 			}
 			dn := rapid.SampledFrom([]int{1, 2, 5, 255, 256, 257, 300, 1000}).Draw(rt, "dictionary-size")
 			dn = min(dn, capOf[wi])
